@@ -494,6 +494,10 @@ def shrink(h, ops, key):
     return vlib.ddmin(ops, fails, max_tests=120)
 
 
+def generate():
+    vlib.gen_write("AsmjitVerif/Gen/HashPrimes.lean", gen_primes.render(gen_primes.collect(vlib.REPO)))
+
+
 def run(res):
     rng = vlib.rng_for(res.seed, PID)
     res.assumptions += [
